@@ -6,6 +6,9 @@
 (* A unit system is three powers of ten relative to SI: length (um, nm,    *)
 (* mm), field (mT, uT, T), current (uA, nA, mA).  One PHYSICAL problem is  *)
 (* fixed: coherence length XI, London depth LAM, thickness D (metres),     *)
+(* height Z0 of the film plane above z = 0 (metres; Layer.z0, 0 by default *)
+(* and therefore a dimension of its own: a conversion lost on z0 alone is  *)
+(* invisible on every flat device),                                        *)
 (* applied field B (tesla), terminal current I (ampere), and a             *)
 (* dimensionless mesh (coordinates S, terminal length L, cell area AR in   *)
 (* units of xi).  In unit system u the user types the NUMBERS              *)
@@ -34,6 +37,7 @@ CONSTANTS
   MAreasPerLen,   \* ... and the prefactor is converted to 1/length_units
   MJFactor,       \* exponent of two in J_scale: 2 (a factor 4)                         (solver.py:251-256)
   MK0OutUnits,    \* the output scale K0 is converted to current_units / length_units   (solution.py:184-196)
+  MSheetZMeter,   \* the height z0 of the current sheet is converted to metres like x, y     (em.py biot_savart_2d)
   TriN            \* integer triangles with coordinates in 0..TriN
 
 Lens == {-9, -6, -3}      \* nm, um, mm
@@ -41,7 +45,7 @@ Flds == {-6, -3, 0}       \* uT, mT, T
 Curs == {-9, -6, -3}      \* nA, uA, mA
 UnitSystems == [l : Lens, f : Flds, c : Curs]
 
-Basis == {"ten", "XI", "LAM", "D", "SIG", "B", "I", "S", "L", "AR", "Phi0", "mu0", "pi", "two"}
+Basis == {"ten", "XI", "LAM", "D", "SIG", "B", "I", "S", "L", "AR", "Phi0", "mu0", "pi", "two", "Z0"}
 One == [k \in Basis |-> 0]
 Gen(k, n) == [One EXCEPT ![k] = n]
 Mul(a, b) == [k \in Basis |-> a[k] + b[k]]
@@ -58,6 +62,7 @@ lamN(u) == Mul(Gen("LAM", 1), Ten(-u.l))
 dN(u)   == Mul(Gen("D", 1), Ten(-u.l))
 sigN(u) == Mul(Gen("SIG", 1), Ten(u.l))                \* conductivity typed in siemens / length_units (SIG is in S/m)
 BN(u)   == Mul(Gen("B", 1), Ten(-u.f))
+z0N(u)  == Mul(Gen("Z0", 1), Ten(-u.l))                \* Layer.z0 / Device.translate(dz=...): the height of the film, typed in length_units
 curN(u)   == Mul(Gen("I", 1), Ten(-u.c))
 
 (* ------------------------------------------------------------------ device.py *)
@@ -100,6 +105,16 @@ DimScreen(u) == Div(ScreenW(u), DistN(u))              \* one term of the induce
 K0OutN(u) == IF MK0OutUnits THEN Mul(K0(u), Ten(u.l - u.c)) ELSE Mul(K0(u), Ten(-6 - u.c))
 PhysOut(u) == Mul(K0OutN(u), Ten(u.c - u.l))           \* Solution.current_density converted to A / m, per unit dimensionless current
 
+(* ------------------------------------------------------------------ em.py, biot_savart_2d (called by Solution.field_at_position) *)
+\* "a sheet of current located at vertical position z0 (in units of length_units) ... positions (in units of length_units)":
+\* everything is converted to metres before the kernel runs:  x, y (sites = xi number * S), the areas, and the height z0
+SheetXY(u)   == Mul(PosN(u), Ten(u.l))
+SheetArea(u) == Prod(<<Gen("AR", 1), Pow(xiN(u), 2), Ten(2 * u.l)>>)
+SheetZ(u)    == Mul(z0N(u), IF MSheetZMeter THEN Ten(u.l) ELSE One)
+\* solver.py: the z handed to the applied vector potential with the edge centres is the NUMBER layer.z0 (in length_units, like x and y)
+SolverZ(u)   == z0N(u)
+AppliedZ(u)  == Mul(SolverZ(u), Ten(u.l))              \* ... i.e. this physical height
+
 (* ------------------------------------------------------------------ the documented quantities (docs/background.rst) *)
 Bc2Phys == Prod(<<Gen("Phi0", 1), Gen("two", -1), Gen("pi", -1), Gen("XI", -2)>>)
 K0Phys  == Prod(<<Gen("two", 2), Gen("XI", 1), Bc2Phys, Gen("mu0", -1), Gen("LAM", -2), Gen("D", 1)>>)
@@ -108,16 +123,22 @@ Ref == [ DimA      |-> Prod(<<Gen("B", 1), Gen("S", 1), Gen("XI", 1), Gen("two",
          DimFlux   |-> Prod(<<Gen("two", 1), Gen("pi", 1), Gen("B", 1), Gen("AR", 1), Gen("XI", 2), Gen("Phi0", -1)>>),  \* 2 pi flux / Phi0
          DimJ      |-> Prod(<<Gen("two", 2), Gen("I", 1), Inv(K0Phys), Gen("XI", -1), Gen("L", -1)>>),    \* 4 I / (K0 * length)
          DimScreen |-> Prod(<<Gen("mu0", 1), Gen("two", -2), Gen("pi", -1), K0Phys, Inv(A0Phys), Gen("XI", 1), Gen("AR", 1), Gen("S", -1)>>),
-         PhysOut   |-> K0Phys ]
-Dimless(u) == [DimA |-> DimA(u), DimFlux |-> DimFlux(u), DimJ |-> DimJ(u), DimScreen |-> DimScreen(u), PhysOut |-> PhysOut(u)]
+         PhysOut   |-> K0Phys,
+         SheetXY   |-> Mul(Gen("XI", 1), Gen("S", 1)),                                            \* metres
+         SheetArea |-> Mul(Gen("XI", 2), Gen("AR", 1)),
+         SheetZ    |-> Gen("Z0", 1),                                                              \* the film lies in the plane z = Z0 (metres)
+         AppliedZ  |-> Gen("Z0", 1) ]
+Dimless(u) == [DimA |-> DimA(u), DimFlux |-> DimFlux(u), DimJ |-> DimJ(u), DimScreen |-> DimScreen(u), PhysOut |-> PhysOut(u),
+               SheetXY |-> SheetXY(u), SheetArea |-> SheetArea(u), SheetZ |-> SheetZ(u), AppliedZ |-> AppliedZ(u)]
 \* the observable scales of one solver (what the binding measures), by name
 \* tau0 = mu0 sigma lambda^2,  V0 = xi (K0 / d) / sigma                                   (device.py:170-200)
 Tau0(u) == Prod(<<Gen("mu0", 1), sigQ(u), Pow(lamQ(u), 2)>>)
 V0(u)   == Prod(<<xiQ(u), K0(u), Inv(dQ(u)), Inv(sigQ(u))>>)
 Scales(u) == [xi |-> xiQ(u), lambda |-> lamQ(u), Lambda |-> LambdaQ(u), A0 |-> A0(u), tau0 |-> Tau0(u), V0 |-> V0(u),
               AScale |-> AScale(u), CurScaled |-> CurScaled(u), ScreenW |-> ScreenW(u), K0 |-> K0(u), K0OutN |-> K0OutN(u),
-              Bc2 |-> Bc2(u), DimFlux |-> DimFlux(u), DimJ |-> DimJ(u)]
-ScaleNames == {"xi", "lambda", "Lambda", "A0", "tau0", "V0", "AScale", "CurScaled", "ScreenW", "K0", "K0OutN", "Bc2", "DimFlux", "DimJ"}
+              Bc2 |-> Bc2(u), DimFlux |-> DimFlux(u), DimJ |-> DimJ(u), SheetZ |-> SheetZ(u), SolverZ |-> SolverZ(u)]
+ScaleNames == {"xi", "lambda", "Lambda", "A0", "tau0", "V0", "AScale", "CurScaled", "ScreenW", "K0", "K0OutN", "Bc2", "DimFlux", "DimJ",
+               "SheetZ", "SolverZ"}
 
 (* ------------------------------------------------------------------ integer triangles, symmetric gauge at edge centres *)
 Pts == (0..TriN) \X (0..TriN)
@@ -143,7 +164,7 @@ Next == PickUnits \/ PickTriangle
 Spec == Init /\ [][Next]_vars
 
 (* ------------------------------------------------------------------ properties *)
-Quantities == {"DimA", "DimFlux", "DimJ", "DimScreen", "PhysOut"}
+Quantities == {"DimA", "DimFlux", "DimJ", "DimScreen", "PhysOut", "SheetXY", "SheetArea", "SheetZ", "AppliedZ"}
 \* the same physical problem gives the same dimensionless numbers (and physical outputs) in every unit system ...
 DimensionlessInputsInvariant == mode # "tri" => \A q \in Quantities : Dimless(u1)[q] = Dimless(u2)[q]
 \* ... namely the documented ones
